@@ -18,6 +18,8 @@ vars == <<phase, n, c, q>>
 \* every shift value the Gen_TimeShift / Gen_FreqShift / Gen_Snippet configurations use
 TQ(k) == {0, 1, -1, 2, -2, 3, -3, 4, -4, 6, -6, 4 * (k - 1), -4 * (k - 1), 4 * k, -4 * k,
           4 * (k + 1), -4 * (k + 1), 4 * k + 10, -(4 * k + 10)}
+\* Mode "snip": only the residual shifts of snippet (C12)
+QS(k) == IF Mode = "snip" THEN {-1, -2, -3} ELSE TQ(k)
 Q_Lens == 1..6
 F_Lens == 1..8
 
@@ -50,10 +52,10 @@ FreqRec ==
       free |-> SortedSeq({NatIdx(j, n) : j \in FreeBin(n, q)}),
       spec |-> X, y |-> y]
 
-Emit == phase = "q" => CSVWrite("%1$s", <<ToJson(IF Mode = "time" THEN TimeRec ELSE FreqRec)>>, IOEnv.GEN_OUT)
+Emit == phase = "q" => CSVWrite("%1$s", <<ToJson(IF Mode = "freq" THEN FreqRec ELSE TimeRec)>>, IOEnv.GEN_OUT)
 
 Init == phase = "start" /\ n = 0 /\ c = 0 /\ q = 0
 Next == \/ /\ phase = "start" /\ phase' = "col" /\ n' \in Lens /\ c' \in 0..(NCols - 1) /\ q' = 0
-        \/ /\ phase = "col" /\ phase' = "q" /\ q' \in TQ(n) /\ UNCHANGED <<n, c>>
+        \/ /\ phase = "col" /\ phase' = "q" /\ q' \in QS(n) /\ UNCHANGED <<n, c>>
 Spec == Init /\ [][Next]_vars
 =============================================================================
